@@ -1481,7 +1481,9 @@ MANIFEST = {
                    "history through the current session only (answer_independent_of_other_requests_partial, "
                    "answer_independent_of_history_partial); SendKey's answer is a function of session, pending seed and request and "
                    "looks at no stream (sendKey_answer_function_of_pending_seed); no answer, state or draw of any history depends on "
-                   "the ambient stream handed to the handlers (global_random_irrelevant). Tied by (A) the regenerated AST table of "
+                   "the ambient stream handed to the handlers (global_random_irrelevant); the seed texts of a handler call are a prefix of a "
+                   "list computed from server seed, session and request alone, and the call reads the seeded oracle at those texts only "
+                   "(seed_texts_function_of_seed_session_request, handler_reads_seeded_streams_of_request_only). Tied by (A) the regenerated AST table of "
                    "RNG objects / seed expressions / free names / draw calls per handler and the source of stateful_rng / RNG "
                    "(handler_rng_sources_agree) and (H) the replay of every recorded handler call (seed texts, kinds of calls, "
                    "answer bytes, state after) through the model."),
